@@ -38,7 +38,9 @@ LEVEL = "exploration"
 RULE = (
     "engine A: case = scheduler kind (FIFO random / FIFO grid / Hyperband stopping, promotion, pasha, cost_promotion, "
     "rush_stopping, rush_promotion / synchronous Hyperband / DEHB / PBT / REA / MOREA) x constructor arguments x config space x "
-    "metric table x 1-8 workers x arrival policy x failure plan x perturbation stream (numpy global, python global, decoy "
+    "config space drawn from all 17 domain kinds (uniform, loguniform, reverseloguniform, quniform, qloguniform, randint, "
+    "lograndint, qrandint, qlograndint, choice, ordinal equal/nn, logordinal, finrange / logfinrange with and without "
+    "cast_int; one kind forced per case in turn) x metric table x 1-8 workers x arrival policy x failure plan x perturbation stream (numpy global, python global, decoy "
     "schedulers; different before each twin); distinct = digest of (kind, sequence of (event type, start/resume/none, "
     "decision)); non-trivial = at least 30 lock-step events all compared. engine B: case = scenario (virtual-tuner GP "
     "searcher history / batch of model-free histories / simulated Tuner experiment) x seed, run in 3 fresh processes "
@@ -105,10 +107,18 @@ def cases(tier, seed):
     out = []
     for i, sc in enumerate(_b_plan(tier)):
         out.append({"engine": "B", "scenario": sc, "seed": seed * 611953 + i * 29 + 7})
+    ns = 12 if tier == "quick" else 200
+    for i in range(ns):
+        for j, target in enumerate(S_TARGETS):
+            c = i * len(S_TARGETS) + j
+            out.append({"engine": "S", "target": target, "seed": seed * 1299709 + c * 23 + 5,
+                        "force_kind": DOMAIN_KINDS[c % len(DOMAIN_KINDS)]})
     n = 40 if tier == "quick" else 700
     for i in range(n):
         for j, kind in enumerate(KINDS_A):
-            out.append({"engine": "A", "kind": kind, "seed": seed * 2750159 + (i * len(KINDS_A) + j) * 19 + 11})
+            c = i * len(KINDS_A) + j
+            out.append({"engine": "A", "kind": kind, "seed": seed * 2750159 + c * 19 + 11,
+                        "force_kind": DOMAIN_KINDS[c % len(DOMAIN_KINDS)]})
     return out
 
 
@@ -134,6 +144,16 @@ def floors(tier):
     })
     for sc in set(_b_plan(tier)):
         f["B:hashseeds:" + sc] = 3
+    for target in S_TARGETS:
+        f["S:hist20:" + target] = 8 * k
+    f["S:hist20_sharing_restrict_configurations"] = 12 * k
+    f["S:hist20_sharing_points_to_evaluate"] = 15 * k
+    f["decided:shared_args_equal_to_solo_run"] = 90 * k
+    f["decided:caller_arguments_unchanged"] = 100 * k
+    for dk in DOMAIN_KINDS:
+        f["domain_kind_in_twin_spaces:" + dk] = 15 * k
+        f["domain_kind_in_child_spaces:" + dk] = 2 if tier == "quick" else 20
+    f["B:cases_with_quantized_domain"] = 8 if tier == "quick" else 80
     return f
 
 
@@ -197,6 +217,137 @@ def suggestion_diff_field(a, b):
     return "other"
 
 
+
+# =============================================================================================
+# configuration spaces with every Domain kind the library ships (JSON descriptions)
+
+DOMAIN_KINDS = [
+    "uniform", "loguniform", "reverseloguniform", "quniform", "qloguniform", "randint", "lograndint", "qrandint",
+    "qlograndint", "choice", "ordinal_equal", "ordinal_nn", "logordinal", "finrange", "finrange_int", "logfinrange",
+    "logfinrange_int",
+]
+FINITE_KINDS = ["randint", "qrandint", "choice", "ordinal_equal", "ordinal_nn", "logordinal", "finrange",
+                "finrange_int", "logfinrange", "logfinrange_int"]
+TRULY_INFINITE = ("uniform", "loguniform", "reverseloguniform")
+QUANTIZED_KINDS = ("quniform", "qloguniform", "qrandint", "qlograndint")
+
+
+def desc_kind(d):
+    """Counter name of one hyperparameter description."""
+    k = d[0]
+    if k == "ordinal":
+        return "ordinal_" + d[2]
+    if k in ("finrange", "logfinrange") and len(d) > 4 and d[4]:
+        return k + "_int"
+    return k
+
+
+def domain_desc(rng, kind, small=False):
+    """One hyperparameter of the given kind. Quantized domains: q divides both bounds and everything is exactly
+    representable (the out-of-bounds samples of C07-F2/F4 do not occur); ordinal nn / logordinal have >= 2 categories
+    (C07-F6); integer finite ranges have distinct members (C06-F4, C07-F12)."""
+    if kind == "uniform":
+        lo = rng.choice([0.0, -1.0, 0.5])
+        return ["uniform", lo, lo + rng.choice([1.0, 2.5, 10.0])]
+    if kind == "loguniform":
+        return ["loguniform", rng.choice([1e-5, 1e-3, 0.1]), rng.choice([1.0, 10.0])]
+    if kind == "reverseloguniform":
+        return ["reverseloguniform"] + rng.choice([[0.5, 0.99], [0.9, 0.999], [0.0, 0.75]])
+    if kind == "quniform":
+        return ["quniform"] + rng.choice([[0.0, 8.0, 0.5], [-2.0, 2.0, 0.25], [1.0, 5.0, 1.0], [0.0, 64.0, 0.125]])
+    if kind == "qloguniform":
+        return ["qloguniform"] + rng.choice([[0.25, 16.0, 0.25], [0.5, 64.0, 0.5], [1.0, 1024.0, 1.0], [0.125, 8.0, 0.125]])
+    if kind == "randint":
+        lo = rng.randint(0, 5)
+        return ["randint", lo, lo + (rng.randint(1, 3) if small else rng.randint(1, 50))]
+    if kind == "lograndint":
+        return ["lograndint", rng.randint(1, 4), rng.randint(5, 8) if small else rng.randint(8, 300)]
+    if kind == "qrandint":
+        return ["qrandint"] + rng.choice([[0, 20, 5], [2, 12, 2], [0, 64, 8], [3, 30, 3]] if not small else [[0, 15, 5], [2, 8, 2], [0, 12, 4]])
+    if kind == "qlograndint":
+        return ["qlograndint"] + rng.choice([[4, 64, 4], [2, 32, 2], [1, 100, 1], [8, 512, 8]] if not small else [[2, 8, 2], [4, 16, 4], [1, 5, 1]])
+    if kind == "choice":
+        return ["choice", [f"c{j}" for j in range(rng.randint(2, 4))]]
+    if kind in ("ordinal_equal", "ordinal_nn"):
+        cats = sorted(rng.sample(range(1, 40), rng.randint(2, 4)))
+        if kind == "ordinal_nn" and rng.random() < 0.3:
+            cats = [c / 4 for c in cats]
+        return ["ordinal", cats, kind[8:]]
+    if kind == "logordinal":
+        return ["logordinal", sorted(rng.sample([1, 2, 4, 8, 16, 32, 64, 100], rng.randint(2, 4)))]
+    if kind == "finrange":
+        return ["finrange", 0.0, 1.0, rng.randint(2, 4)]
+    if kind == "finrange_int":
+        return ["finrange"] + rng.choice([[1, 9, 5], [0, 10, 6], [2, 8, 4], [0, 3, 4]]) + [True]
+    if kind == "logfinrange":
+        return ["logfinrange"] + rng.choice([[0.001, 1.0, 4], [1.0, 16.0, 5], [0.5, 8.0, 3]])
+    if kind == "logfinrange_int":
+        return ["logfinrange"] + rng.choice([[1, 16, 5], [1, 64, 4], [2, 32, 5]]) + [True]
+    raise ValueError(kind)
+
+
+def full_space(rng, with_const=True, finite=False, ensure_infinite=False, force_kind=None, kinds=None):
+    """A small mixed configuration space drawn from ALL domain kinds (``gen.small_space`` knows 7 of them)."""
+    kinds = list(kinds or (FINITE_KINDS if finite else DOMAIN_KINDS))
+    n = rng.randint(2, 4)
+    desc = {}
+    for i in range(n):
+        desc[f"h{i}"] = domain_desc(rng, rng.choice(kinds), small=finite)
+    if force_kind is not None and (not finite or force_kind in FINITE_KINDS):
+        desc["h1"] = domain_desc(rng, force_kind, small=finite)
+    if ensure_infinite and not any(desc_kind(d) in TRULY_INFINITE for d in desc.values()):
+        desc["h0"] = ["uniform", 0.0, 1.0]
+    if with_const and rng.random() < 0.5:
+        desc["const_s"] = ["const", "abc"]
+    if with_const and rng.random() < 0.3:
+        desc["const_i"] = ["const", 7]
+    return desc
+
+
+def build_space(desc):
+    """JSON description -> config space; every call builds fresh Domain objects."""
+    from syne_tune import config_space as cs
+
+    out = {}
+    for name, d in desc.items():
+        k = d[0]
+        if k == "reverseloguniform":
+            out[name] = cs.reverseloguniform(d[1], d[2])
+        elif k == "quniform":
+            out[name] = cs.quniform(d[1], d[2], d[3])
+        elif k == "qloguniform":
+            out[name] = cs.qloguniform(d[1], d[2], d[3])
+        elif k == "qrandint":
+            out[name] = cs.qrandint(d[1], d[2], d[3])
+        elif k == "qlograndint":
+            out[name] = cs.qlograndint(d[1], d[2], d[3])
+        elif k == "logordinal":
+            out[name] = cs.logordinal(list(d[1]))
+        elif k == "finrange" and len(d) > 4:
+            out[name] = cs.finrange(d[1], d[2], d[3], cast_int=bool(d[4]))
+        elif k == "logfinrange" and len(d) > 4:
+            out[name] = cs.logfinrange(d[1], d[2], d[3], cast_int=bool(d[4]))
+        else:
+            out[name] = gen.build_space({name: d})[name]
+    return out
+
+
+def space_kinds(desc):
+    return sorted({desc_kind(d) for d in desc.values() if d[0] != "const"})
+
+
+def column_values(d):
+    """All values a table column of this (finite) domain can take when drawn through Domain.sample / decoded."""
+    k = d[0]
+    if k in ("choice", "ordinal", "logordinal"):
+        return list(d[1])
+    if k in ("randint", "lograndint", "qrandint", "qlograndint"):
+        # quantized integers: samples are multiples of q, but the mid-point rule for the first suggestion is not
+        return list(range(d[1], d[2] + 1))
+    dom = build_space({"x": d})["x"]
+    return [dom.cast(v) for v in dom.values]
+
+
 # =============================================================================================
 # scheduler kinds (engine A; also used by the children of engine B)
 
@@ -204,7 +355,7 @@ def suggestion_diff_field(a, b):
 def _sample_configs(space_desc, n, seed):
     import numpy as np
 
-    space = gen.build_space(space_desc)
+    space = build_space(space_desc)
     rs = np.random.RandomState(seed)
     out = []
     for _ in range(n):
@@ -228,7 +379,8 @@ def expand_a(spec):
     p["checkpointing"] = rng.random() < 0.6
     p["use_mra"] = False
     p["mode"] = rng.choice(["min", "max"])
-    p["space"] = gen.small_space(rng, ensure_infinite=True, ordinal_kinds=("equal",))
+    fk = spec.get("force_kind")
+    p["space"] = full_space(rng, ensure_infinite=True, force_kind=fk)
     if kind.startswith("fifo") or kind in ("rea", "morea"):
         p["max_t"] = rng.randint(1, 4)
         p["max_trials"] = rng.randint(20, 80)
@@ -236,7 +388,7 @@ def expand_a(spec):
         if kind == "fifo_random":
             p["variant"] = rng.choice(["plain", "plain", "restrict", "allow_duplicates"])
         elif kind == "fifo_grid":
-            p["space"] = gen.small_space(rng, ordinal_kinds=("equal",), finite=rng.random() < 0.3)
+            p["space"] = full_space(rng, finite=rng.random() < 0.3, force_kind=fk)
             p["shuffle"] = rng.random() < 0.85
         else:
             p["population_size"] = rng.randint(3, 8)
@@ -273,8 +425,9 @@ def expand_a(spec):
                 q["num_brackets"] = len(q["rungs_first_bracket"])  # fewer brackets than rungs: C05-K2
             if sub == "dehb_geometric":
                 q["brackets"] = None
+            q["space"] = p["space"]
             try:  # geometric rung levels rounding to max_resource make the constructor raise (C05-K3): regenerate
-                c05.build_sync(q, gen.build_space(q["space"]), 1)
+                c05.build_sync(q, build_space(q["space"]), 1)
                 break
             except Exception:  # noqa: BLE001
                 continue
@@ -303,35 +456,107 @@ def expand_a(spec):
     return p
 
 
-def build_scheduler(p, seed, time_keeper=None):
+def build_scheduler(p, seed, time_keeper=None, args=None):
     """One scheduler instance from the JSON parameters; every call builds fresh argument objects.
     The time keeper is assigned with set_time_keeper after construction (passing ``time_keeper=`` to the
     FIFOScheduler constructor raises AttributeError in this revision: attribute read before it is set)."""
-    s = _build_scheduler(p, seed)
+    s = _build_scheduler(p, seed, args)
     if time_keeper is not None:
         s.set_time_keeper(time_keeper)
     return s
 
 
-def _build_scheduler(p, seed):
+def make_args(p):
+    """Fresh argument objects of one instance: config space dict, points_to_evaluate list (or None), search_options
+    dict (holding the restrict_configurations list / num_samples dict where the kind uses them)."""
+    kind = p["kind"]
+    space = build_space(p["space"])
+    pv = p.get("pts_variant")
+    npts = p.get("n_points", 0)
+    if pv == "empty":
+        pts = []
+    elif pv == "none":
+        pts = None
+    else:
+        pts = _sample_configs(p["space"], npts, p["points_seed"]) if npts else None
+    so = {"debug_log": False}
+    if kind in ("fifo_random", "searcher_random"):
+        if p["variant"] == "restrict":
+            so["restrict_configurations"] = _sample_configs(p["space"], 40, p["points_seed"] + 1)
+            if pv is None:
+                pts = None
+        elif p["variant"] == "allow_duplicates":
+            so["allow_duplicates"] = True
+    elif kind in ("fifo_grid", "searcher_grid"):
+        so["shuffle_config"] = p["shuffle"]
+        if p.get("num_samples") == "partial":  # explicit reproducers only: a num_samples dict naming one hyperparameter
+            name = sorted(k for k, d in p["space"].items() if d[0] != "const")[0]
+            so["num_samples"] = {name: 3}
+    elif kind.startswith("hb_"):
+        if p["use_mra"]:
+            space["epochs"] = p["max_t"]
+        nc = p.get("rush_candidates", 0) if kind[3:].startswith("rush") else 0
+        if nc > 0:
+            pts = _sample_configs(p["space"], nc, p["points_seed"])
+        if p.get("variant") == "restrict":
+            so["restrict_configurations"] = _sample_configs(p["space"], 40, p["points_seed"] + 1)
+    elif kind == "pbt" and p.get("variant") == "restrict":  # explicit reproducers only (PBT documents: not supported)
+        so["restrict_configurations"] = _sample_configs(p["space"], 40, p["points_seed"] + 1)
+    return {"space": space, "pts": pts, "so": so}
+
+
+class SearcherAdapter:
+    """Scheduler-API adapter around a searcher created *directly* (what FIFOScheduler does with its searcher)."""
+
+    def __init__(self, searcher):
+        self.searcher = searcher
+
+    def suggest(self, trial_id):
+        from syne_tune.optimizer.scheduler import TrialSuggestion
+
+        config = self.searcher.get_config(trial_id=str(trial_id))
+        if config is None:
+            return None
+        self.searcher.register_pending(trial_id=str(trial_id), config=config)
+        return TrialSuggestion.start_suggestion(config)
+
+    def on_trial_add(self, trial):
+        return None
+
+    def on_trial_result(self, trial, result):
+        self.searcher.on_trial_result(str(trial.trial_id), trial.config, result=result, update=False)
+        return "CONTINUE"
+
+    def on_trial_remove(self, trial):
+        return None
+
+    def on_trial_complete(self, trial, result):
+        self.searcher.on_trial_result(str(trial.trial_id), trial.config, result=result, update=True)
+
+    def on_trial_error(self, trial):
+        self.searcher.evaluation_failed(str(trial.trial_id))
+
+
+def _build_scheduler(p, seed, args=None):
     from syne_tune.optimizer.schedulers import FIFOScheduler
 
     kind = p["kind"]
-    space = gen.build_space(p["space"])
+    if args is None:
+        args = make_args(p)
+    space, pts, so = args["space"], args["pts"], args["so"]
     common = dict(metric="loss", mode=p["mode"], random_seed=seed)
-    npts = p.get("n_points", 0)
-    pts = _sample_configs(p["space"], npts, p["points_seed"]) if npts else None
+    if kind == "searcher_random":
+        from syne_tune.optimizer.schedulers.searchers import RandomSearcher
+
+        return SearcherAdapter(RandomSearcher(space, points_to_evaluate=pts, **so, **common))
+    if kind == "searcher_grid":
+        from syne_tune.optimizer.schedulers.searchers import GridSearcher
+
+        return SearcherAdapter(GridSearcher(space, points_to_evaluate=pts, **so, **common))
     if kind == "fifo_random":
-        so = {"debug_log": False}
-        if p["variant"] == "restrict":
-            so["restrict_configurations"] = _sample_configs(p["space"], 40, p["points_seed"] + 1)
-            pts = None
-        elif p["variant"] == "allow_duplicates":
-            so["allow_duplicates"] = True
         return FIFOScheduler(space, searcher="random", search_options=so, points_to_evaluate=pts, max_t=p["max_t"], **common)
     if kind == "fifo_grid":
-        return FIFOScheduler(space, searcher="grid", search_options={"debug_log": False, "shuffle_config": p["shuffle"]},
-                             points_to_evaluate=pts, max_t=p["max_t"], **common)
+        return FIFOScheduler(space, searcher="grid", search_options=so, points_to_evaluate=pts, max_t=p["max_t"], **common)
     if kind == "rea":
         from syne_tune.optimizer.baselines import REA
 
@@ -350,21 +575,19 @@ def _build_scheduler(p, seed):
             space, resource_attr="epoch", max_t=p["max_t"], population_size=p["population_size"],
             perturbation_interval=p["perturbation_interval"], quantile_fraction=p["quantile_fraction"],
             resample_probability=p["resample_probability"], points_to_evaluate=pts,
-            search_options={"debug_log": False}, **common)
+            search_options=so, **common)
     if kind.startswith("hb_"):
         typ = kind[3:]
         bp = dict(p, type=typ)
-        kw = {"search_options": {"debug_log": False}}
+        kw = {"search_options": so}
         if p["use_mra"]:
-            space["epochs"] = p["max_t"]
             bp["max_resource_attr"] = "epochs"
         if typ == "cost_promotion":
             kw["cost_attr"] = "cost"
         if typ.startswith("rush"):
-            nc = p.get("rush_candidates", 0)
-            kw["rung_system_kwargs"] = {"num_threshold_candidates": nc}
-            if nc > 0:
-                kw["points_to_evaluate"] = _sample_configs(p["space"], nc, p["points_seed"])
+            kw["rung_system_kwargs"] = {"num_threshold_candidates": p.get("rush_candidates", 0)}
+        if pts is not None:
+            kw["points_to_evaluate"] = pts
         return gen.build_hyperband(space, bp, seed=seed, **kw)
     if kind in ("sync_hb", "dehb"):
         from stv.props import c05
@@ -546,11 +769,12 @@ class Diverged(Exception):
 class TwinPort:
     """Same methods as vtuner.Port; forwards every call to both twins (perturbing before each), compares."""
 
-    def __init__(self, twins, pert, o, time_keepers=None):
-        self.twins = twins
+    def __init__(self, twins, pert, o, time_keepers=None, prefix="decided:twin_"):
+        self.twins = twins  # two twins, or a single instance (solo reference run: nothing to compare, trace only)
         self.scheduler = twins[0]
         self.pert = pert
         self.o = o
+        self.prefix = prefix
         self.time_keepers = time_keepers
         self.divergence = None
         self.ncalls = 0
@@ -576,7 +800,8 @@ class TwinPort:
                     raw = e
                 outs.append(["raise", type(e).__name__, str(e)[:160]])
         self.ncalls += 1
-        a, b = outs
+        self.trace.append([api, outs[0]])
+        a, b = outs[0], outs[-1]
         if a != b:
             if a[0] != b[0]:
                 field = "one_twin_raised"
@@ -589,12 +814,8 @@ class TwinPort:
             self.divergence = {"api": api, "field": field, "call_index": self.ncalls, "twin1": a, "twin2": b,
                                "args": {k: repr(v)[:200] for k, v in kw.items()}}
             raise SchedRaised(api, Diverged())
-        if api == "suggest":
-            self.o.count("decided:twin_suggestion")
-        elif api == "on_trial_result":
-            self.o.count("decided:twin_decision")
-        else:
-            self.o.count("decided:twin_other_call")
+        if len(outs) > 1:
+            self.o.count(self.prefix + ("suggestion" if api == "suggest" else "decision" if api == "on_trial_result" else "other_call"))
         if a[0] == "raise":
             raise SchedRaised(api, raw)
         return raw
@@ -726,6 +947,9 @@ def run_engine_a(spec, o):
     n = vt.n_events
     if div is None and n >= 30:
         o.count("A:hist30:" + kind)
+        if kind not in ("dehb", "fifo_grid"):  # these two never call Domain.sample (encoded vectors / grid points)
+            for dk in space_kinds(p["space"]):
+                o.count("domain_kind_in_twin_spaces:" + dk)
     if div is None:
         if any(e[0] == "error" for e in vt.events):
             o.count("A:histories_with_failure")
@@ -746,11 +970,12 @@ def expand_b(spec):
     rng = random.Random(spec["seed"] * 17 + 3)
     p = {"scenario": sc, "sched_seed": rng.randrange(2 ** 31 - 1), "vt_seed": rng.randrange(2 ** 31 - 1)}
     if sc == "vt_modelfree":
-        p["n_hist"] = 12
+        p["n_hist"] = len(DOMAIN_KINDS)  # every domain kind forced once, every scheduler kind at least once
         p["base"] = rng.randrange(2 ** 30)
     elif sc.startswith("vt_"):
         p["mode"] = rng.choice(["min", "max"])
-        p["space"] = gen.small_space(rng, ensure_infinite=True, ordinal_kinds=("equal",), with_const=rng.random() < 0.5)
+        p["space"] = full_space(rng, ensure_infinite=True, with_const=rng.random() < 0.5,
+                                force_kind=spec.get("force_kind") or rng.choice(QUANTIZED_KINDS))
         p["curves"] = rng.choice(["continuous", "crossing"])
         p["n_workers"] = rng.randint(1, 4)
         p["policy"] = rng.choice(["uniform", "round_robin", "eager", "burst"])
@@ -779,16 +1004,16 @@ def expand_b(spec):
         sched = sc[4:]
         p["sched"] = sched
         ncol = rng.randint(2, 3)
-        cols = []
-        for i in range(ncol):
-            k = rng.choice(["choice", "randint", "finrange"])
-            if k == "choice":
-                cols.append(["choice", [f"c{j}" for j in range(rng.randint(2, 4))]])
-            elif k == "randint":
-                lo = rng.randint(0, 3)
-                cols.append(["randint", lo, lo + rng.randint(1, 3)])
-            else:
-                cols.append(["finrange", 0.0, 1.0, rng.randint(2, 4)])
+        # finite domains whose members a table can list; quantized integers only for schedulers which obtain
+        # every value through Domain.sample (encoded / perturbed values of an Integer domain are not multiples of q)
+        col_kinds = ["choice", "randint", "finrange", "finrange_int", "logfinrange", "logfinrange_int", "lograndint",
+                     "ordinal_equal", "ordinal_nn", "logordinal"]
+        cols = [domain_desc(rng, rng.choice(col_kinds), small=True) for _ in range(ncol)]
+        if sched in ("fifo_random", "hb", "sync_hb", "rea"):
+            cols[rng.randrange(ncol)] = domain_desc(rng, rng.choice(["qrandint", "qlograndint"]), small=True)
+        for i, c in enumerate(cols):  # keep the table small
+            while len(column_values(c)) > 6 and desc_kind(c) not in QUANTIZED_KINDS:
+                c = cols[i] = domain_desc(rng, desc_kind(c), small=True)
         p["columns"] = cols
         p["n_fid"] = rng.choice([3, 4, 6, 9])
         p["n_seeds"] = rng.randint(1, 3)
@@ -894,7 +1119,7 @@ def _count_model_based(scheduler, counter):
 def child_vt_gp(p, noise, trace, meta):
     from syne_tune.optimizer.schedulers import FIFOScheduler, HyperbandScheduler
 
-    space = gen.build_space(p["space"])
+    space = build_space(p["space"])
     so = _gp_search_options(p)
     tk = new_time_keeper()
     if p["scenario"] == "vt_gp_fifo":
@@ -924,11 +1149,17 @@ def child_vt_gp(p, noise, trace, meta):
         trace.append(["vtuner_stopped", repr(vt.raised)[:300]])
 
 
+def modelfree_spec(p, j):
+    """Engine-A spec of the j-th history of a vt_modelfree batch (every domain kind is forced in turn)."""
+    return {"kind": KINDS_A[(p["base"] + j) % len(KINDS_A)], "seed": p["base"] + 101 * j,
+            "force_kind": DOMAIN_KINDS[(p["base"] + j) % len(DOMAIN_KINDS)]}
+
+
 def child_vt_modelfree(p, noise, trace, meta):
     total = 0
     for j in range(p["n_hist"]):
         kind = KINDS_A[(p["base"] + j) % len(KINDS_A)]
-        q = expand_a({"kind": kind, "seed": p["base"] + 101 * j})
+        q = expand_a(modelfree_spec(p, j))
         q["max_events"] = min(q["max_events"], 120)
         tk = new_time_keeper() if _needs_time_keeper(q) else None
         trace.append(["history", j, kind])
@@ -961,16 +1192,8 @@ def make_blackbox(p):
     from syne_tune.config_space import randint
 
     desc = {f"h{i}": c for i, c in enumerate(p["columns"])}
-    space = gen.build_space(desc)
-    vals = []
-    for c in p["columns"]:
-        if c[0] == "choice":
-            vals.append(list(c[1]))
-        elif c[0] == "randint":
-            vals.append(list(range(c[1], c[2] + 1)))
-        else:
-            dom = gen.build_space({"x": c})["x"]
-            vals.append([dom.cast(v) for v in dom.values])
+    space = build_space(desc)
+    vals = [column_values(c) for c in p["columns"]]
     rows = list(itertools.product(*vals))
     hp = pd.DataFrame(rows, columns=list(desc))
     rng = np.random.default_rng(p["table_seed"])
@@ -985,7 +1208,7 @@ def make_blackbox(p):
 def build_sim_scheduler(p, desc):
     from syne_tune.optimizer.schedulers import FIFOScheduler, HyperbandScheduler
 
-    space = gen.build_space(desc)
+    space = build_space(desc)
     sched, nf, seed = p["sched"], p["n_fid"], p["sched_seed"]
     mra = None
     if p["use_mra"] and sched in ("hb", "sync_hb", "dehb", "mobster", "hypertune"):
@@ -1281,6 +1504,18 @@ def run_engine_b(spec, o):
         if d is not None and diff is None:
             diff = (hs, pre, d)
     o.count("B:hashseeds:" + sc, len({c[0] for c in children}))
+    pb = expand_b(spec)
+    if sc == "vt_modelfree":
+        descs = [expand_a(modelfree_spec(pb, j))["space"] for j in range(pb["n_hist"])]
+    elif sc.startswith("vt_"):
+        descs = [pb["space"]]
+    else:
+        descs = [{f"h{i}": c for i, c in enumerate(pb["columns"])}]
+    for d_ in descs:
+        for dk in space_kinds(d_):
+            o.count("domain_kind_in_child_spaces:" + dk)
+    if any(dk in QUANTIZED_KINDS for d_ in descs for dk in space_kinds(d_)):
+        o.count("B:cases_with_quantized_domain")
     meta = ref[2]["meta"]
     o.count("B:gp_model_based_suggestions", meta.get("gp_model_based_suggestions", 0) if sc not in ("vt_modelfree",) else 0)
     if len({c[2]["meta"].get("hash_probe") for c in children}) > 1:
@@ -1308,9 +1543,160 @@ def run_engine_b(spec, o):
                 "first_events": [e[:200] for e in ref[2]["events"][:4]], "n_events": n}
 
 
+# =============================================================================================
+# engine S: interleaved instances that share their argument OBJECTS
+
+S_TARGETS = ["searcher_random", "searcher_grid", "fifo_random", "fifo_grid", "hb_promotion", "hb_stopping", "sync_hb",
+             "pbt", "rea"]
+S_ARG_NAMES = {"rc": "restrict_configurations", "pts": "points_to_evaluate", "space": "config_space", "so": "search_options"}
+
+
+def expand_s(spec):
+    target = spec["target"]
+    base = {"searcher_random": "fifo_random", "searcher_grid": "fifo_grid"}.get(target, target)
+    rng = random.Random(spec["seed"] * 13 + 5)
+    p = expand_a({"kind": base, "seed": spec["seed"], "force_kind": spec.get("force_kind")})
+    p["kind"] = target
+    if base == "fifo_random":
+        p["variant"] = rng.choice(["restrict", "restrict", "plain", "allow_duplicates"])
+    elif base.startswith("hb_"):
+        p["variant"] = rng.choice(["restrict", "plain"])
+    if base not in ("sync_hb",):
+        p["pts_variant"] = rng.choice(["none", "empty", "sampled"])
+        p["n_points"] = rng.randint(1, 3)
+    p["max_events"] = min(p["max_events"], 140)
+    p.update({k: v for k, v in spec.items() if k not in ("seed", "engine", "target", "share") and not k.startswith("_")})
+    return p
+
+
+def _args_snapshot(args):
+    so = args["so"]
+    return {
+        "config_space": [[k, repr(v)] for k, v in args["space"].items()],
+        "points_to_evaluate": canon(args["pts"]),
+        "restrict_configurations": canon(so.get("restrict_configurations")),
+        "num_samples": canon(so.get("num_samples")),
+        "search_options": canon({"keys": sorted(so), "other_values": {
+            k: v for k, v in so.items() if k not in ("restrict_configurations", "num_samples")}}),
+    }
+
+
+def _args_modified(before, after):
+    mod = [k for k in before if before[k] != after[k]]
+    if "search_options" in mod:  # a key added / removed is a change of the dict, not of the object under the key
+        mod = [k for k in mod if not (k in ("restrict_configurations", "num_samples") and (before[k] is None or after[k] is None))]
+    return mod
+
+
+def _drive(p, instances, o, prefix):
+    tks = []
+    for s in instances:
+        if _needs_time_keeper(p):
+            tk = new_time_keeper()
+            s.set_time_keeper(tk)
+            tks.append(tk)
+    port = TwinPort(instances, Perturber(p, p["vt_seed"] + 5, classes=()), o, tks, prefix=prefix)
+    curves, extra_fn = make_value_fns(p)
+    vt = CVTuner(port, vt_params(p), curves, extra_fn=extra_fn).run()
+    return port, vt
+
+
+def run_shared(p, share, o):
+    """Solo run with private argument copies, then two instances built from the SAME argument objects (those named
+    in ``share``) driven alternately. -> dict(kind of failure or None, detail, ...)"""
+    try:
+        solo = _build_scheduler(p, p["sched_seed"], make_args(p))
+    except Exception as e:  # noqa: BLE001
+        return {"fail": None, "constructor_raised": [type(e).__name__, str(e)[:160]]}
+    solo_port, solo_vt = _drive(p, [solo], o, "decided:solo_")
+    shared = make_args(p)
+    before = _args_snapshot(shared)
+    space_copy = copy.deepcopy(shared["space"])
+    twins = []
+    for _ in range(2):
+        a = make_args(p)
+        for k in share:
+            if k == "rc":
+                if "restrict_configurations" in shared["so"]:
+                    a["so"]["restrict_configurations"] = shared["so"]["restrict_configurations"]
+            else:
+                a[k] = shared[k]
+        try:
+            twins.append(_build_scheduler(p, p["sched_seed"], a))
+        except Exception as e:  # noqa: BLE001
+            return {"fail": "twins_diverge", "detail": {"api": "constructor", "raised": [type(e).__name__, str(e)[:160]],
+                                                          "instance": len(twins)}}
+    port, vt = _drive(p, twins, o, "decided:shared_args_twin_")
+    out = {"fail": None, "events": vt.n_events, "calls": port.ncalls, "vt": vt}
+    if port.divergence is not None:
+        out.update(fail="twins_diverge", detail=port.divergence)
+    elif port.trace != solo_port.trace:
+        i = next((i for i, (x, y) in enumerate(zip(port.trace, solo_port.trace)) if x != y), min(len(port.trace), len(solo_port.trace)))
+        out.update(fail="differs_from_solo_run", detail={
+            "call_index": i, "shared": port.trace[i] if i < len(port.trace) else None,
+            "solo": solo_port.trace[i] if i < len(solo_port.trace) else None})
+    after = _args_snapshot(shared)
+    modified = _args_modified(before, after)
+    try:
+        if "config_space" not in modified and not (shared["space"] == space_copy):
+            modified.append("config_space")
+    except Exception:  # noqa: BLE001
+        pass
+    out["modified"] = {k: {"before": before[k], "after": after[k]} for k in modified}
+    return out
+
+
+def run_engine_s(spec, o):
+    p = expand_s(spec)
+    target = p["kind"]
+    share = list(spec.get("share") or ["space", "pts", "so"])
+    o.count("S:cases:" + target)
+    r = run_shared(p, share, o)
+    params = {k: v for k, v in p.items() if k != "space"}
+    if r.get("constructor_raised"):
+        o.count("S:constructor_raised_in_solo_run")
+        o.set_sig(("S", target, "no_run"), nontrivial=False)
+        o.sample = {"engine": "S", "target": target, "constructor_raised": r["constructor_raised"], "params": params}
+        return
+    if r["fail"] is not None:
+        which = "combined_only"
+        for k in ("rc", "pts", "space", "so"):
+            if k in share or (k == "rc" and "so" in share):
+                r2 = run_shared(p, [k], Obs())
+                if r2.get("fail") is not None:
+                    which = S_ARG_NAMES[k]
+                    break
+        o.violate("interleaved_instances_sharing_argument_objects", f"shared_argument:{which}:{r['fail']}",
+                  {"target": target, "detail": r.get("detail"), "params": params, "space": p["space"]})
+    else:
+        o.count("decided:shared_args_equal_to_solo_run")
+    for k, d in r.get("modified", {}).items():
+        o.violate("caller_arguments_unchanged",
+                  f"shared_argument:{k}:caller_{'list' if k in ('restrict_configurations', 'points_to_evaluate') else 'dict'}_modified",
+                  {"target": target, "before": d["before"], "after": d["after"], "params": params})
+    o.count("decided:caller_arguments_unchanged")
+    vt = r.get("vt")
+    n = r.get("events", 0)
+    if r["fail"] is None and n >= 20:
+        o.count("S:hist20:" + target)
+        if "restrict_configurations" in make_args(p)["so"]:
+            o.count("S:hist20_sharing_restrict_configurations")
+        if p.get("pts_variant") == "sampled":
+            o.count("S:hist20_sharing_points_to_evaluate")
+    if vt is not None:
+        for ev in vt.events[-40:]:
+            o.ev(*ev)
+    o.set_sig(("S", target, p.get("variant"), p.get("pts_variant"), [e[:3] for e in (vt.events if vt else [])]), nontrivial=r["fail"] is None and n >= 20)
+    o.sample = {"engine": "S", "target": target, "share": share, "params": params, "space": p["space"], "events": n,
+                "calls_compared": r.get("calls")}
+
+
+
 def run_case(spec):
     o = Obs()
-    if spec.get("engine") == "B":
+    if spec.get("engine") == "S":
+        run_engine_s(spec, o)
+    elif spec.get("engine") == "B":
         run_engine_b(spec, o)
     else:
         run_engine_a(spec, o)
